@@ -199,7 +199,7 @@ theorem openWith_saved (ro : Bool) (cs : List FTxn) (hw : FileWF cs) (ext : Byte
   unfold openWith restoreIndex at h ⊢
   simp only [saveIndex] at h
   cases hs : checkSanity (encodeFile cs ++ ext) (indexOf cs) (encodeFile cs).length with
-  | error e => rw [hs] at h; simp at h
+  | error e => rw [hs] at h; exact ⟨o, h, rfl⟩
   | ok v =>
     rw [hs] at h
     cases v with
@@ -219,9 +219,15 @@ theorem openWith_saved (ro : Bool) (cs : List FTxn) (hw : FileWF cs) (ext : Byte
 
 /-- an index the sanity check rejects (or that does not load) is simply ignored -/
 theorem openWith_rejected (ro : Bool) (file : Bytes) (s : SavedIndex)
-    (h : checkSanity file s.index s.pos = .ok none) :
+    (h : ∀ l, checkSanity file s.index s.pos ≠ .ok (some l)) :
     openWith ro file (some s) = openWith ro file none := by
-  simp [openWith, restoreIndex, h]
+  unfold openWith restoreIndex
+  cases hs : checkSanity file s.index s.pos with
+  | error e => simp only []
+  | ok v =>
+    cases v with
+    | none => simp only []
+    | some l => exact absurd hs (h l)
 
 /-! ### side files -/
 
